@@ -39,6 +39,15 @@
                              + slot being returned by the processor <= W.
    C16_conservation_const_window  the same inequality, and "stored packets <= W" once the
                          connection is set up, under c16_window_const instead of c16_resume_fits.
+   C16_slots_not_lost    "window slots are returned by every completed handshake and are not lost over
+                         time or across reconnects": under c16_window_const, c16_slots_not_lost2
+                         (Broker/ConnProofsCDefs.v) holds of every accepted trace: the dequeuer, once it
+                         has delivered and is waiting for a slot, reports a token-wait timeout only when
+                         in flight + acknowledgements in the processor's hands >= W  (unless the peer
+                         acknowledged an id not in flight).  Behind it is the lower bound
+                           W <= in flight + acks in hand + free slots + slot held by the dequeuer
+                         while the dequeuer is alive (ConnProofsC8.RLr), the converse of
+                         C16_conservation_const_window.
    C16_qos0_free         every accepted successful send of a fresh QoS 0 PUBLISH is the
                          dequeuer's delivery (DSend) and returns its slot at once:
                          tdeq' = min W (tdeq + 1), the dequeuer is back at its token wait.
@@ -53,7 +62,8 @@
                          inside Dequeue (holding a slot) and the connection is not dying. *)
 From Coq Require Import List NArith Bool.
 From GM Require Import Base.Lts Codec.Packet Session.Store Broker.Conn Broker.ConnSpec
-  Broker.ConnProofsCDefs Broker.ConnProofsCTraces Broker.ConnProofsC4 Broker.ConnProofsC5 Broker.ConnProofsC7.
+  Broker.ConnProofsCDefs Broker.ConnProofsCTraces Broker.ConnProofsC4 Broker.ConnProofsC5 Broker.ConnProofsC7
+  Broker.ConnProofsC8.
 Import ListNotations.
 Open Scope N_scope.
 
@@ -122,6 +132,30 @@ Theorem C16_conservation_const_window : forall es s,
       (cw s <> 0 -> N.of_nat (length (s_out (sess s))) <= cw s))).
 Proof. exact c16_conservation_const_window_holds. Qed.
 Print Assumptions C16_conservation_const_window.
+
+Theorem C16_slots_not_lost : forall es s,
+  bc_run es = Some s -> c16_window_const es = true -> c16_slots_not_lost2 es = true.
+Proof. exact c16_slots_not_lost_holds. Qed.
+Print Assumptions C16_slots_not_lost.
+
+(* window 1, one unacknowledged delivery, the next message waits: the token timeout is accepted and
+   legitimate (window full); so is a timeout that fires while the processor holds the PUBACK whose
+   slot it has not put back yet, or after the delete of the acknowledged packet failed *)
+Example C16_slots_not_lost_nonvacuous :
+  tc_accepted tr_sl_full = true /\ c16_window_const tr_sl_full = true /\ c16_slots_not_lost2 tr_sl_full = true /\
+  In (EDie 3 KClient) tr_sl_full /\
+  tc_accepted tr_sl_race = true /\ c16_slots_not_lost2 tr_sl_race = true /\
+  tc_accepted tr_sl_delfail = true /\ c16_slots_not_lost2 tr_sl_delfail = true.
+Proof. vm_compute. repeat split; auto 40. Qed.
+
+(* discriminating traces: a timeout with a free slot (window 2, one message in flight), on one
+   connection and after a resume whose retransmission was acknowledged: the clause answers false,
+   and the model does not accept them *)
+Example C16_slots_not_lost_rejects :
+  c16_slots_not_lost2 tr_sl_lost = false /\ tc_accepted tr_sl_lost = false /\
+  c16_slots_not_lost2 tr_sl_lost_resume = false /\ tc_accepted tr_sl_lost_resume = false /\
+  c16_window_const tr_sl_lost = true /\ c16_window_const tr_sl_lost_resume = true.
+Proof. vm_compute. repeat split. Qed.
 
 Theorem C16_qos0_free : forall es s g m id a s',
   bc_run es = Some s -> m_qos m = 0 ->
